@@ -142,8 +142,12 @@ class BehavioralRTLIRToVVisitorL2( BehavioralRTLIRToVVisitorL1 ):
     inc_op   = '-' if node.step._value < 0 else '+'
 
     step_abs = s.visit( node.step )
-    if node.step._value < 0 and step_abs[0] == '-':
-      step_abs = step_abs[1:]
+    if node.step._value < 0:
+      if step_abs[0] == '-':
+        step_abs = step_abs[1:]
+      else:
+        # A negative step that is not a literal (e.g. a free variable)
+        step_abs = str( -node.step._value )
 
     for stmt in node.body:
       body.extend( s.visit( stmt ) )
